@@ -44,6 +44,7 @@ func main() {
 	defer r.Close()
 	quiet()
 	r.Register("h", func(a []string) string { return runCase(a) })
+	r.Register("k6", func(a []string) string { return runHuntCase(a) })
 	if r.Replayed() {
 		return
 	}
